@@ -181,6 +181,14 @@ def parse_dres(ints, pos=0):
     return (("resp4" if tag == 4 else "resp5"),) + tuple(fields), pos
 
 
+def enc(s: str) -> bytes:
+    """UTF-8 bytes of a decoded field; a str that cannot be encoded (lone surrogates) is reported as such, not raised"""
+    try:
+        return s.encode()
+    except UnicodeEncodeError:
+        return b"<not encodable as UTF-8: " + repr(s).encode("ascii", "backslashreplace") + b">"
+
+
 def impl_decode(gen: int, d: bytes):
     """The public decoder of the discovery CONFIG, as datagram_received uses it."""
     from pyairtouch import comms
@@ -199,8 +207,8 @@ def impl_decode(gen: int, d: bytes):
         return ("unicodeerror",)
     if isinstance(msg, m.CONFIG.response_type):
         if gen == 4:
-            return ("resp4", msg.host.encode(), msg.serial.encode(), msg.airtouch_id.encode())
-        return ("resp5", msg.host.encode(), msg.serial.encode(), msg.airtouch_id.encode(), msg.name.encode())
+            return ("resp4", enc(msg.host), enc(msg.serial), enc(msg.airtouch_id))
+        return ("resp5", enc(msg.host), enc(msg.serial), enc(msg.airtouch_id), enc(msg.name))
     return ("request",)
 
 
